@@ -55,6 +55,15 @@ ClientGone ==
   /\ mon' = Step(Step(mon, Ev("eof", "", "", 0, 0, 0)), Ev("exit", "", "", 0, 0, 0))
   /\ UNCHANGED <<hq, hbusy, eq, ew, nin, neng, pos>>
 
+\* the transport breaks for good: the handler reads errors until its read-error time-out ends it
+Broken ==
+  /\ ~hbusy /\ ~s.closed /\ ~gone
+  /\ gone' = TRUE
+  /\ s' = Shut(s)
+  /\ mon' = Step(Step(Step(Step(mon, Ev("broken", "", "", 0, 0, 0)), InEv("readerr", pos)), Ev("rd", "", "", 0, 0, 0)),
+                  Ev("exit", "", "", 0, 0, 0))
+  /\ UNCHANGED <<hq, hbusy, eq, ew, nin, neng, pos>>
+
 \* ---- connection handler ----------------------------------------------------------
 HandlerWrite ==
   /\ hbusy /\ hq # <<>>
@@ -122,7 +131,9 @@ EngineDone(k) ==
   /\ UNCHANGED <<hq, hbusy, eq, nin, neng, pos, gone>>
 
 Server == HandlerWrite \/ HandlerNext \/ \E k \in KS : ExecStart(k) \/ EngineWrite(k) \/ EngineDone(k)
-Env    == (\E sym \in Alphabet : ClientSend(sym)) \/ ClientGone \/ InitTimeout
+\* graphql-ws treats everything it does not know alike: one representative per class keeps the model small
+MCAlphabet == IF Proto = "gws" THEN Alphabet \ {"pong", "unknown", "binary"} ELSE Alphabet
+Env    == (\E sym \in MCAlphabet : ClientSend(sym)) \/ ClientGone \/ InitTimeout \/ Broken
           \/ \E k \in KS, what \in {"data", "fin", "error", "result"} : EngineEv(k, what)
 
 \* the end of a behaviour: the connection is over and every goroutine has written what it had
@@ -142,7 +153,7 @@ Accepted             == mon.bad = ""
 \* the handler never goes back to reading while it owes the client a reply; every reply comes
 Answered == (mon.pend # "none") ~> (mon.pend = "none" \/ mon.bad # "")
 \* the acceptor follows the server: it knows the connection is closed exactly when the server closed it
-Tracks == (mon.bad = "" /\ ~hbusy) => ((mon.conn = "closed") = (s.closed \/ gone))
+Tracks == (mon.bad = "" /\ ~hbusy) => ((mon.conn = "closed" \/ mon.hs = "exited") = (s.closed \/ gone))
 \* an operation the acceptor considers terminal holds no id in the reference server (graphql-transport-ws only:
 \* in graphql-ws the refusal of a duplicate start, error(id), cannot be told from the operation's own error)
 Released == (Impl = "ref" /\ Proto = "tws" /\ mon.bad = "") =>
